@@ -23,7 +23,8 @@ def gen(rng, n, modes=('idle', 'lit', 'closed', 'own')):
         nc = rng.choice([1, 2, 2, 3]) if mode != 'idle' else rng.choice([1, 1, 2, 3])
         callers = []
         for i in range(nc):
-            kind = 'coro' if target == 'lit' and mode != 'own' else rng.choice(['coro', 'coro', 'task', 'future'])
+            kind = (rng.choice(['coro', 'coro', 'coro', 'donefut']) if target == 'lit' and mode != 'own'
+                    else rng.choice(['coro', 'coro', 'task', 'future', 'donefut']))
             callers.append({'c': i + 1, 'thr': 'C%d' % (i + 1), 'start': rng.choice([0.0, 0.0, 0.0, 1.0]),
                             'fn': 'ensure_aw' if mode != 'lit' else rng.choice(['ensure_aw', 'ensure_aw', 'run_aw_threadsafe']),
                             'to': 'own' if mode == 'own' or rng.random() < 0.15 else 'T',
